@@ -89,6 +89,9 @@ def tt_specs(draw, d_min=2, d_max=6, n_min=1, n_max=5, r_max=6, size_max=4096,
     fam = draw(st.sampled_from(list(families)))
     d = len(n)
     spec = {"n": n, "r": r, "fam": fam, "rfam": rfam}
+    lay = draw(st.sampled_from(["C", "C", "C", "F", "N"]))
+    if lay != "C":
+        spec["layout"] = lay          # memory layout of the cores: Fortran-ordered or non-contiguous strided views
     entries = sum(r[k] * n[k] * r[k + 1] for k in range(d))
     if fam == "explicit":
         if entries > 40:
@@ -107,7 +110,25 @@ def tt_specs(draw, d_min=2, d_max=6, n_min=1, n_max=5, r_max=6, size_max=4096,
     return spec
 
 
+def relayout(x, layout):
+    """Same values, different memory layout: C, F (Fortran) or N (non-contiguous strided view)."""
+    if layout == "F":
+        return np.asfortranarray(x).copy(order="F")
+    if layout == "N":
+        big = np.zeros(x.shape[:-1] + (2 * x.shape[-1],), dtype=x.dtype)
+        v = big[..., ::2]
+        v[...] = x
+        return v
+    return x
+
+
 def build_tt(spec):
+    Y = _build_tt(spec)
+    lay = spec.get("layout", "C")
+    return [relayout(G, lay) for G in Y] if lay != "C" else Y
+
+
+def _build_tt(spec):
     n, r, fam = spec["n"], spec["r"], spec["fam"]
     d = len(n)
     if fam == "explicit":
@@ -167,7 +188,7 @@ numbers = st.one_of(st.integers(-5, 5), st.sampled_from([0, 1, -1, 0.0, 2.5, -0.
 def spec_labels(spec):
     n, r = spec["n"], spec["r"]
     d = len(n)
-    labs = ["fam:" + spec["fam"], "rfam:" + spec.get("rfam", "?")]
+    labs = ["fam:" + spec["fam"], "rfam:" + spec.get("rfam", "?"), "layout:" + spec.get("layout", "C")]
     if d == 2:
         labs.append("d==2")
     if 1 in n:
